@@ -14,45 +14,27 @@ fn replay_member_n<const N: usize>(ctx: &Ctx, head: &BTreeMap<String, String>, s
 		_ => vcore::machinery_fail("replay: bad kind"),
 	};
 	let owner_name = get("owner");
-	// class names in the order of the super lines, then the owner
-	let mut names: Vec<String> = Vec::new();
-	let mut parsed: Vec<(String, Option<Vec<String>>)> = Vec::new();
-	for l in supers {
-		if let Some(n) = l.strip_suffix(" unknown") {
-			parsed.push((n.to_owned(), None));
-		} else if let Some((n, rest)) = l.split_once(" =") {
-			parsed.push((n.to_owned(), Some(rest.split_whitespace().map(|s| s.to_owned()).collect())));
-		} else {
-			vcore::machinery_fail("replay: bad super line");
-		}
-	}
-	for (n, _) in &parsed {
-		if !names.contains(n) {
-			names.push(n.clone());
-		}
-	}
-	for (_, l) in &parsed {
-		for x in l.iter().flatten() {
-			if !names.contains(x) {
-				names.push(x.clone());
-			}
-		}
-	}
-	if !names.contains(&owner_name) {
-		names.push(owner_name.clone());
-	}
-	let mut sup: Vec<Option<Vec<usize>>> = vec![None; names.len()];
-	for (n, l) in &parsed {
-		let i = names.iter().position(|x| x == n).unwrap();
-		sup[i] = l.as_ref().map(|v| v.iter().map(|x| names.iter().position(|y| y == x).unwrap()).collect());
-	}
+	let (names, mut sup) = parse_supers(supers, Some(&owner_name));
 	let world = World::build(set, from, to, &names);
 	sup.resize(world.names.len(), None);
 	let owner = world.index_of(&owner_name).unwrap();
 	let fwd = CMap::build(set, from, to);
 	let bwd = CMap::build(set, to, from);
-	let q: Mappings<N, ()> = mapmodel::to_quill(set).unwrap_or_else(fail("replay"));
-	let prov = jar_prov(&world.names, &sup);
+	// sets of the "confuse" engine are handed to the real code in reversed order
+	let order = if get("engine").ends_with("reversed") { mapmodel::Order::Reversed } else { mapmodel::Order::Sorted };
+	let q: Mappings<N, ()> = mapmodel::to_quill_ordered(set, order).unwrap_or_else(fail("replay"));
+	// one jar, or (engine "env") the classes distributed over several jars as the case says
+	let prov: Vec<JarSuperProv> = match head.get("jar_of") {
+		None => vec![jar_prov(&world.names, &sup)],
+		Some(j) => {
+			let jar_of: Vec<usize> = j.trim_matches(['[', ']']).split(',').map(|x| x.trim().parse().unwrap_or_else(|_| vcore::machinery_fail("replay: bad jar_of"))).collect();
+			let jars: usize = num("jars");
+			(0..jars).map(|k| {
+				let masked: Vec<Option<Vec<usize>>> = sup.iter().enumerate().map(|(i, s)| if jar_of.get(i) == Some(&k) { s.clone() } else { None }).collect();
+				jar_prov(&world.names, &masked)
+			}).collect()
+		},
+	};
 	let rb = q.remapper_b(ns(from), ns(to), &prov).unwrap_or_else(fail("replay: remapper_b"));
 	let qu = Query::new(kind, &get("name"), &get("desc"), &fwd);
 	let mut evals = 0;
@@ -87,4 +69,42 @@ fn replay_member_n<const N: usize>(ctx: &Ctx, head: &BTreeMap<String, String>, s
 	}
 	st.evaluations += evals;
 	obs
+}
+
+/// class names in the order of the `super` lines (then the classes only mentioned as super types, then the owner) and the super lists
+pub fn parse_supers(supers: &[String], owner: Option<&str>) -> (Vec<String>, Vec<Option<Vec<usize>>>) {
+	let mut names: Vec<String> = Vec::new();
+	let mut parsed: Vec<(String, Option<Vec<String>>)> = Vec::new();
+	for l in supers {
+		if let Some(n) = l.strip_suffix(" unknown") {
+			parsed.push((n.to_owned(), None));
+		} else if let Some((n, rest)) = l.split_once(" =") {
+			parsed.push((n.to_owned(), Some(rest.split_whitespace().map(|s| s.to_owned()).collect())));
+		} else {
+			vcore::machinery_fail("replay: bad super line");
+		}
+	}
+	for (n, _) in &parsed {
+		if !names.contains(n) {
+			names.push(n.clone());
+		}
+	}
+	for (_, l) in &parsed {
+		for x in l.iter().flatten() {
+			if !names.contains(x) {
+				names.push(x.clone());
+			}
+		}
+	}
+	if let Some(o) = owner {
+		if !names.iter().any(|n| n == o) {
+			names.push(o.to_owned());
+		}
+	}
+	let mut sup: Vec<Option<Vec<usize>>> = vec![None; names.len()];
+	for (n, l) in &parsed {
+		let i = names.iter().position(|x| x == n).unwrap();
+		sup[i] = l.as_ref().map(|v| v.iter().map(|x| names.iter().position(|y| y == x).unwrap()).collect());
+	}
+	(names, sup)
 }
